@@ -12,30 +12,25 @@ theorem removeAll_ok : ∀ (rs avail avail' : List String), avail.Nodup →
     exact ⟨hnd, fun _ h => h, by simp, fun _ h _ => h⟩
   | r :: rs, avail, avail', hnd, h => by
     simp only [removeAll] at h
-    split at h
-    · rename_i hin
-      obtain ⟨h1, h2, h3, h4⟩ := removeAll_ok rs (avail.erase r) avail' (hnd.erase r) h
-      refine ⟨h1, fun x hx => List.mem_of_mem_erase (h2 x hx), ?_, ?_⟩
-      · intro r' hr'
-        rcases List.mem_cons.mp hr' with rfl | hr'
-        · intro hx
-          exact (List.Nodup.mem_erase_iff hnd).mp (h2 _ hx) |>.1 rfl
-        · exact h3 r' hr'
-      · intro x hx hnot
-        simp only [List.mem_cons, not_or] at hnot
-        exact h4 x ((List.Nodup.mem_erase_iff hnd).mpr ⟨hnot.1, hx⟩) hnot.2
-    · cases h
+    obtain ⟨h1, h2, h3, h4⟩ := removeAll_ok rs (avail.erase r) avail' (hnd.erase r) h
+    refine ⟨h1, fun x hx => List.mem_of_mem_erase (h2 x hx), ?_, ?_⟩
+    · intro r' hr'
+      rcases List.mem_cons.mp hr' with rfl | hr'
+      · intro hx
+        exact (List.Nodup.mem_erase_iff hnd).mp (h2 _ hx) |>.1 rfl
+      · exact h3 r' hr'
+    · intro x hx hnot
+      simp only [List.mem_cons, not_or] at hnot
+      exact h4 x ((List.Nodup.mem_erase_iff hnd).mpr ⟨hnot.1, hx⟩) hnot.2
 
-/-- a read register that is not available (not a scratch register, or also
-clobbered) is refused with ValueError -/
+/-- taking the read registers out of the pool never fails: a read register that is not a scratch
+register, or that is also clobbered, is simply not there to be handed out -/
 theorem removeAll_err : ∀ (rs avail : List String) (e : GenErr),
-    removeAll avail rs = .error e → e = .valueError
+    removeAll avail rs = .error e → False
   | [], _, _, h => by simp [removeAll] at h
   | r :: rs, avail, e, h => by
     simp only [removeAll] at h
-    split at h
-    · exact removeAll_err rs _ e h
-    · cases h; rfl
+    exact removeAll_err rs _ e h
 
 /-- **the allocation**: as many scratch registers as requested, distinct, taken
 from the ABI's scratch list, none of them clobbered or read by the patch, all
@@ -136,7 +131,7 @@ theorem allocate_err (abi : AbiDesc) (c : Constraints) (e : GenErr) (h : allocat
       cases hra : removeAll (availAfterClobbers abi clob) reads with
       | error e1 =>
         rw [hra] at h; cases h
-        exact Or.inr (removeAll_err _ _ _ hra)
+        exact (removeAll_err _ _ _ hra).elim
       | ok avail2 =>
         rw [hra] at h
         simp only [] at h
